@@ -195,18 +195,20 @@ load_rsa(long bits)
 	rsa_key *rk;
 	uint32_t pubexp;
 
+	/* public exponents as listed in fixtures/rsa/INDEX (br_rsa_i31_compute_pubexp
+	   only handles keys with p = q = 3 mod 4, which most fixtures are not) */
 	switch (bits) {
-	case 512:  fn = "k512_e65537.der"; break;
-	case 768:  fn = "k768_e17.der"; break;
-	case 1016: fn = "k1016_e65537.der"; break;
-	case 1017: fn = "k1017_e3.der"; break;
-	case 1024: fn = "k1024_e65537_m3.der"; break;
-	case 1025: fn = "k1025_e17_m3.der"; break;
-	case 1536: fn = "k1536_e3.der"; break;
-	case 2048: fn = "k2048_e65537.der"; break;
-	case 2049: fn = "k2049_e65537.der"; break;
-	case 3072: fn = "k3072_e17.der"; break;
-	case 4096: fn = "k4096_e3.der"; break;
+	case 512:  fn = "k512_e65537.der"; pubexp = 65537; break;
+	case 768:  fn = "k768_e17.der"; pubexp = 17; break;
+	case 1016: fn = "k1016_e65537.der"; pubexp = 65537; break;
+	case 1017: fn = "k1017_e3.der"; pubexp = 3; break;
+	case 1024: fn = "k1024_e65537_m3.der"; pubexp = 65537; break;
+	case 1025: fn = "k1025_e17_m3.der"; pubexp = 17; break;
+	case 1536: fn = "k1536_e3.der"; pubexp = 3; break;
+	case 2048: fn = "k2048_e65537.der"; pubexp = 65537; break;
+	case 2049: fn = "k2049_e65537.der"; pubexp = 65537; break;
+	case 3072: fn = "k3072_e17.der"; pubexp = 17; break;
+	case 4096: fn = "k4096_e3.der"; pubexp = 3; break;
 	default: die("no RSA fixture of that size"); return NULL;
 	}
 	snprintf(path, sizeof path, "%s/%s",
@@ -234,8 +236,6 @@ load_rsa(long bits)
 	rk->nlen = (k->n_bitlen + 7) >> 3;
 	rk->n = xmalloc(rk->nlen);
 	if (br_rsa_i31_compute_modulus(rk->n, &rk->sk) != rk->nlen) die("modulus");
-	pubexp = br_rsa_i31_compute_pubexp(&rk->sk);
-	if (pubexp == 0) die("pubexp");
 	rk->e = xmalloc(4);
 	br_enc32be(rk->e, pubexp);
 	rk->pk.n = rk->n; rk->pk.nlen = rk->nlen;
